@@ -760,16 +760,21 @@ class SymEval:
         """{k: v for ... in X.items()/X.keys()/X}[key]  ->  v with the loop element bound to `key`."""
         k, v = comp[2][1]
         it = comp[3][0][1]
-        elems = [x for x in T.walk(k) if x[0] == "elem"]
-        if len(elems) != 1:
+        if k[0] == "elem":
+            el = k
+        elif k[0] == "index" and k[1][0] == "elem":
+            el = k[1]
+        else:
             return None
-        el = elems[0]
         mapping: Dict[Term, Term] = {}
         if k == el:
             mapping[el] = key
         elif k == T.mk_index(el, T.const(0)) and it[0] == "call" and isinstance(it[1], str) and it[1].endswith(".items"):
             mapping[k] = key
             mapping[T.mk_index(el, T.const(1))] = T.mk_index(T.sym(it[1][: -len(".items")]), key)
+        elif k[0] == "index" and k[1] == el and T.const_value(k[2]) is not None:
+            # key is one component of the loop element (e.g. zip(names, rngs)): bind that component, keep the others generic
+            mapping[k] = key
         else:
             return None
         return self.subst_value(v, mapping)
@@ -845,7 +850,7 @@ class SymEval:
                 fterm = self.heap[(recv, method)]
                 recv_is_module = False
             else:
-                fterm = ("attr", recv, method) if recv[0] == "ite" else T.mk_attr(recv, method)
+                fterm = ("attr", recv, method) if recv[0] in ("ite", "replace") else T.mk_attr(recv, method)
         else:
             fterm = self.eval(e.func, frame)
         args = [self.eval_star(a, frame) for a in e.args]
